@@ -58,6 +58,9 @@ def obligations(tier):
     obs.append(Ob("L4.cal_gt_is_date_order", "c14.py", "cal_gt_is_date_order", {}, timeout=t, bounds="any two dates 1000..9999"))
     obs.append(Ob("L1.fields_in_domain", "c14.py", "fields_in_domain", {}, timeout=t))
     obs.append(Ob("L3.week_guard", "c14.py", "week_guard", {}, timeout=t))
+    for grp in range(4):
+        obs.append(Ob(f"L3.part_wiring[parts {grp}/4]", "c14.py", "part_wiring", {"group": grp, "groups": 4}, timeout=t,
+                      bounds="independent values per calendar field"))
     for pat in (L2_QUICK if tier == "quick" else L2_QUICK + L2_MORE):
         obs += _l2(pat, t)
     obs.append(Ob("L2.witness_glued_unpadded[YYYYMM]", "c14.py", "render_monotone2", {"pattern": "YYYYMM"}, expect="refute", timeout=t))
